@@ -1500,7 +1500,10 @@ class AdapterIndex:
         # Fix this by re-doing the alignment.
         adapter = result[0]
         match = adapter.match_to(affix)
-        if match is None:
+        if match is None or match.rstop - match.rstart != len(affix):
+            # The re-done alignment must cover the whole affix; otherwise its
+            # errors and score belong to a shorter occurrence, which is looked
+            # up under its own length.
             return None
         return adapter, match.errors, match.score
 
